@@ -9,7 +9,7 @@ for d in /verif/seeded/*/; do
   id=$(basename $d)
   [ -f $d/patch.diff ] || continue
   [ -f $d/demo.rs ] || continue
-  [ -n "$1" ] && [[ "$id" != $1* ]] && continue
+  [ -n "$1" ] && [[ "$id" != *$1* ]] && continue
   git checkout -q -- . ; rm -f tests/demo.rs
   out=$d/confirm.txt
   echo "confirmation run $(date -u +%FT%TZ) on /repo $(git -C /repo rev-parse --short HEAD)" > $out
